@@ -167,6 +167,29 @@ type Op struct {
 	A   int    `json:"a,omitempty"`   // universe index (add/remove/contains) or pattern index (query)
 	Set []int  `json:"set,omitempty"` // merge: universe indices held by the (private, read-only) source store
 	Y   int    `json:"y,omitempty"`   // runtime.Gosched() calls before the invocation
+	// Slow (query): the callback yields the processor that many times per fact.
+	// Slow (merge): the source store yields the processor that many times between two facts it hands out, like
+	// a file-backed or remote source would; a Merge that is not atomic shows while its source is being scanned.
+	Slow int `json:"slow,omitempty"`
+}
+
+// slowSource is a read-only store that yields the processor between the facts it streams.
+type slowSource struct {
+	factstore.ReadOnlyFactStore
+	yields int
+}
+
+func (s slowSource) GetFacts(a ast.Atom, fn func(ast.Atom) error) error {
+	return s.ReadOnlyFactStore.GetFacts(a, func(x ast.Atom) error {
+		for i := 0; i < s.yields; i++ {
+			runtime.Gosched()
+		}
+		err := fn(x)
+		for i := 0; i < s.yields; i++ {
+			runtime.Gosched()
+		}
+		return err
+	})
 }
 
 // Event is one recorded invocation/response pair. Call and Ret are values of one atomic counter.
@@ -314,6 +337,9 @@ func apply(st factstore.ConcurrentFactStore, o Op, src factstore.ReadOnlyFactSto
 	case opQuery:
 		var m int64
 		err := st.GetFacts(patterns[o.A], func(a ast.Atom) error {
+			for y := 0; y < o.Slow; y++ {
+				runtime.Gosched() // a callback that takes its time (query): the answer must still be one snapshot
+			}
 			i, ok := universeKey[val.AtomKey(a)]
 			if !ok {
 				bad = "query returned an atom outside the universe: " + val.AtomKey(a)
@@ -353,6 +379,9 @@ func prepare(c StoreCase) (factstore.ConcurrentFactStore, [][]factstore.ReadOnly
 					s.Add(universe[i])
 				}
 				srcs[ti][oi] = s
+				if o.Slow > 0 {
+					srcs[ti][oi] = slowSource{ReadOnlyFactStore: s, yields: o.Slow}
+				}
 			}
 		}
 	}
@@ -687,18 +716,25 @@ func genStoreCase(t *rapid.T) StoreCase {
 				o = Op{K: opContains, A: rapid.IntRange(0, universeSize-1).Draw(t, "atom")}
 			case w <= 12:
 				o = Op{K: opQuery, A: rapid.IntRange(0, len(patternSpec)-1).Draw(t, "pattern")}
-			case w == 13:
+				if rapid.Bool().Draw(t, "slowCallback") {
+					o.Slow = rapid.IntRange(1, 3).Draw(t, "callbackYields")
+				}
+			case w == 13 || w == 14:
 				m := rapid.IntRange(1, 1<<universeSize-1).Draw(t, "mergeset")
 				o = Op{K: opMerge}
+				if rapid.Bool().Draw(t, "slowSource") {
+					o.Slow = rapid.IntRange(1, 4).Draw(t, "slowYields")
+				}
 				for i := 0; i < universeSize; i++ {
 					if m&(1<<i) != 0 {
 						o.Set = append(o.Set, i)
 					}
 				}
-			case w == 14:
-				o = Op{K: opCount}
 			default:
-				o = Op{K: opPreds}
+				o = Op{K: opCount}
+				if rapid.Bool().Draw(t, "predsInstead") {
+					o = Op{K: opPreds}
+				}
 			}
 			if rapid.IntRange(0, 3).Draw(t, "yield?") == 0 {
 				o.Y = rapid.IntRange(1, 3).Draw(t, "yields")
